@@ -536,3 +536,171 @@ def check_float_position_tracking(ctx, res, config="all"):
         res.note("R9-float-position: no position variable of the shape `bits -= step` with `(bits - 1) % BITS + 1` found in to_f64/to_f32 - not decided")
     res.count("float conversion position variables", n)
     res.clause("R9-float: the digit position of to_f64/to_f32 advances by the width computed for the digit (so every later digit is a full digit for the sticky test)")
+
+
+# ------------------------------------------------------------------------------------------
+# carry chains: a digit loop that threads running carries may stop early only when every one of them has been looked at
+
+
+_INT_TYS = ("u8", "u16", "u32", "u64", "u128", "usize", "i8", "i16", "i32", "i64", "i128", "isize")
+
+
+def _ref_root(b, l, depth=0):
+    """the scalar local a `&mut` temporary points to (through reborrows), or None"""
+    if depth > 6:
+        return None
+    ds = b.defs().get(l, [])
+    if len(ds) != 1 or ds[0][0] != "assign":
+        return None
+    rv = ds[0][3]["rv"]
+    if rv["k"] == "ref":
+        pl = rv["place"]
+        if not pl["proj"]:
+            return pl["local"]
+        if len(pl["proj"]) == 1 and pl["proj"][0]["k"] == "deref":
+            return _ref_root(b, pl["local"], depth + 1)
+        return None
+    if rv["k"] == "use":
+        p = core.op_place(rv["op"]) if "op" in rv else None
+        if p is not None and not p["proj"]:
+            return _ref_root(b, p["local"], depth + 1)
+    return None
+
+
+def _natural_loop(b, h):
+    """blocks of the natural loop(s) with header h: h plus everything that reaches a back edge into h without passing h"""
+    fwd = b.reachable(h)
+    tails = [p for p in b.pred(h) if p in fwd and b.block_dominates(h, p)]
+    if not tails:
+        return set()
+    loop = {h}
+    stack = list(tails)
+    while stack:
+        x = stack.pop()
+        if x in loop:
+            continue
+        loop.add(x)
+        stack.extend(p for p in b.pred(x) if p in fwd)
+    return loop
+
+
+def _threaded_calls(b):
+    """(block, carry local) for every call of a crate-local function that gets `&mut <integer local>`"""
+    out = []
+    live = b.live_blocks()
+    for i, t in b.calls():
+        if i not in live:
+            continue
+        fn = core.callee_fn(t) or {}
+        if not fn.get("local"):
+            continue
+        for a in t["args"]:
+            p = core.op_place(a)
+            if p is None or p["proj"]:
+                continue
+            ty = p.get("ty") or ""
+            if not (ty.startswith("&mut ") and ty[5:] in _INT_TYS):
+                continue
+            root = _ref_root(b, p["local"])
+            if root is not None and (b.locals[root]["ty"] in _INT_TYS):
+                out.append((i, root))
+        # the by-value form: `carry = adc(carry, ..)`
+        d = t.get("dest")
+        if d is not None and not d["proj"] and b.locals[d["local"]]["ty"] in _INT_TYS and not b.locals[d["local"]].get("name"):
+            # the result temporary is moved into the named accumulator
+            for j, sj, s2 in b.stmts():
+                if s2["k"] == "assign" and not s2["place"]["proj"] and s2["rv"]["k"] == "use":
+                    q = core.op_place(s2["rv"].get("op")) if s2["rv"].get("op") is not None else None
+                    if q is not None and not q["proj"] and q["local"] == d["local"]:
+                        d = s2["place"]
+                        break
+        if d is not None and not d["proj"] and b.locals[d["local"]]["ty"] in _INT_TYS and b.locals[d["local"]].get("name"):
+            for a in t["args"]:
+                p = core.op_place(a)
+                if p is None or p["proj"]:
+                    continue
+                src = p["local"]
+                ds = b.defs().get(src, [])
+                if src != d["local"] and len(ds) == 1 and ds[0][0] == "assign" and ds[0][3]["rv"]["k"] == "use":
+                    q = core.op_place(ds[0][3]["rv"].get("op")) if ds[0][3]["rv"].get("op") is not None else None
+                    if q is not None and not q["proj"]:
+                        src = q["local"]
+                if src == d["local"]:
+                    out.append((i, d["local"]))
+    return out
+
+
+def check_carry_exits(ctx, res, config="all"):
+    """A loop over digits that threads running carries/borrows (integer locals handed as `&mut` to adc/sbb/negate_carry/
+    mac_with_carry-like helpers) computes the rest of the result from those carries.  Leaving it before the digits are
+    exhausted is exact only when every threaded carry has settled; an exit that looks at some of them and not at another one -
+    which nothing after the loop keeps propagating - drops that carry for the digits not visited."""
+    from .tests import fate
+
+    facts = ctx.facts(config)
+    n_loops = 0
+    n_early = 0
+    for b in facts.bodies:
+        if not b.blocks:
+            continue
+        thr = _threaded_calls(b)
+        if not thr:
+            continue
+        live = b.live_blocks()
+        k_here = 0
+        loops = []
+        for hi, ht in b.calls():
+            if hi not in live or core.callee_name(ht) not in ("next", "next_back"):
+                continue
+            loop = _natural_loop(b, hi)
+            if loop:
+                loops.append((hi, ht, loop))
+        for hi, ht, loop in loops:
+            # a carry belongs to the innermost loop its helper call sits in (an outer loop re-initialises it per round)
+            carries = sorted({c for (i, c) in thr if i in loop and not any(i in l2 and len(l2) < len(loop) for (_, _, l2) in loops)})
+            if not carries:
+                continue
+            n_loops += 1
+            k_here += 1
+            item = ht["dest"]["local"]
+            taint = {c: _fwd_taint(b, {c}) for c in carries}
+            key = "%s|carry-loop#%d" % (b.path, k_here - 1)
+            bad = None
+            for x in sorted(loop):
+                t = b.blocks[x]["term"]
+                if t["k"] != "switch":
+                    continue
+                for s in b.succ(x):
+                    if s in loop:
+                        continue
+                    if fate(b, s) == "panic":
+                        continue
+                    dl = (core.op_place(t["discr"]) or {}).get("local")
+                    ds = b.defs().get(dl, []) if dl is not None else []
+                    if len(ds) == 1 and ds[0][0] == "assign" and ds[0][3]["rv"]["k"] == "discriminant" and ds[0][3]["rv"]["place"]["local"] == item:
+                        continue  # the iterator is exhausted
+                    n_early += 1
+                    # the tests this exit is decided by: the switches of the loop that every path header -> x passes
+                    deciders = [x]
+                    for y in sorted(loop):
+                        if y != x and b.blocks[y]["term"]["k"] == "switch" and x not in b.reachable(hi, without_blocks=(y,)):
+                            deciders.append(y)
+                    dlocals = {(core.op_place(b.blocks[y]["term"]["discr"]) or {}).get("local") for y in deciders}
+                    after = b.reachable(s)
+                    for c in carries:
+                        if dlocals & taint[c]:
+                            continue
+                        if any(i in after and i not in loop and c2 == c for (i, c2) in thr):
+                            continue  # a later loop goes on propagating this carry
+                        bad = (t, c)
+            if bad is not None:
+                t, c = bad
+                nm = b.locals[c].get("name") or "_%d" % c
+                res.fail(Finding("R9-carry-exit", key, "the digit loop can stop before the last digit (line %s) on a condition that does not look at the running carry `%s`, and nothing after the loop keeps propagating it: when that carry is still pending, the digits not visited miss it" % (t["span"]["line"], nm), b, t["span"]["line"]))
+            else:
+                res.ok("R9-carry-exit", key, {"loop_blocks": len(loop), "carries": [b.locals[c].get("name") or "_%d" % c for c in carries]})
+    res.count("digit loops threading carries", n_loops)
+    res.count("early exits of carry loops", n_early)
+    if config == "all" and n_loops < 12:
+        res.fail(Finding("R9-anchor-lost", "carry-loops", "only %d digit loops threading a carry found (12 counted on the reviewed tree)" % n_loops, file="src/biguint/addition.rs", line=0))
+    res.clause("R9-carry: a digit loop threading running carries (adc/sbb/mac_with_carry/negate_carry through `&mut`) leaves before exhaustion only on a condition computed from every such carry that no later loop keeps propagating")
